@@ -37,3 +37,5 @@
 (define-fun parse_float ((s String)) F64 (ext$strconv.ParseFloat$0 s 64))
 (declare-fun dec64_ok (String Int) Bool)
 (assert (forall ((s String) (fd Int)) (! (=> (dec64_ok s fd) (not (fp.isNaN (parse_float s)))) :pattern ((dec64_ok s fd)))))
+; the length restriction object of a string type (schema.String.Len()): a pointer to a schema.Length
+(declare-fun str_lenptr (Iface) Int)
